@@ -179,8 +179,17 @@ def run(ctx):
             if s.t_ref is not None:
                 tt = s.t_ref + np.linspace(-3, 40, 23) * u.day
                 curves0 = [rv_curve(s, r, tt).to_value(s["K"].unit) for r in rows]
+            arr_before, _ = s.pack(nonlinear_only=False)
             s.wrap_K()
             ops.append("wrap_K")
+            arr_after, units_after = s.pack(nonlinear_only=False)           # same arguments as before the wrap
+            extra += 1
+            for j_, k_ in enumerate(units_after.keys()):
+                if not np.array_equal(arr_after[:, j_], np.asarray(s.tbl[k_].to_value(units_after[k_]) if hasattr(s.tbl[k_], "to_value")
+                                                                    else s.tbl[k_])):
+                    ctx.violation("pack-stale-after-wrap_K", "pack() after wrap_K() does not reflect the table (column %s): a result "
+                                  "remembered from before the wrap" % k_, dict(desc, column=k_))
+                    break
             if curves0 is not None:
                 s._cache.clear()
                 for r, c0 in zip(rows, curves0):
